@@ -1,6 +1,13 @@
 /-
 Driver for C16.
-  iso <engine> <nops> op…      impl:  I <s>:<answer> … | A0 <answers of store 0 alone> | A1 … | A2 …
+  iso|isq <engine> <nops> op…  impl:  I <s>:<answer> … | A0 <answers of store 0 alone> | A1 … | A2 …       (memory | sqlite)
+  st <m|s> <names> <nops> op…  impl:  the same + | L <op index>=[stores listed] …                          (storage level)
+  sf q…                        overlapping typesystem resolutions (Driver/SfCase.lean)
+
+storage level (`st`): 1. isolation as below; 2. after an acknowledged DeleteStore (until the case store is created again)
+GetStore fails and NO ListStores — unfiltered, by name, by ids, by name and ids — lists the store; 3. a model id of
+another store is "not found"; 4. GetStore / every listing against `Model.StoreRegistry` (sqlite: soft delete + the WHERE
+list, memory: map + filters + sort).
 
 1. the property itself, model-free: the answers store `s` got in the interleaved run = the answers of the same
    operations run alone on a fresh server;
@@ -9,7 +16,9 @@ Driver for C16.
    `Model.MultiStore.shared` — the shared-state model whose locality is proved in Props/C16.
 -/
 import OpenFGAVerif.Driver.Proto
+import OpenFGAVerif.Driver.SfCase
 import OpenFGAVerif.Model.MultiStore
+import OpenFGAVerif.Model.StoreRegistry
 
 open OpenFGAVerif OpenFGAVerif.Proto OpenFGAVerif.Model.MultiStore
 
@@ -23,17 +32,25 @@ structure HOp where
 def arity (k : String) : Nat :=
   match k with
   | "wt" => 4 | "dt" => 3 | "ck" => 4 | "lo" => 3 | "lu" => 2 | "rd" => 3 | "rc" => 0 | "wm" => 1 | "rm" => 0
-  | "wa" => 4 | "ra" => 0 | "gs" => 0 | "ls" => 0 | "ds" => 0 | "ex" => 2 | _ => 0
+  | "wa" => 4 | "ra" => 0 | "gs" => 0 | "ls" => 0 | "ln" => 0 | "ds" => 0 | "ex" => 2 | _ => 0
 
-def parseOps : Nat → List String → Option (List HOp)
+/-- storage-level ops (harness/c16/store.go) -/
+def stArity (k : String) : Nat :=
+  match k with
+  | "cs" => 0 | "ds" => 0 | "gs" => 0 | "ls" => 1 | "wt" => 4 | "dt" => 3 | "rd" => 4 | "rp" => 5 | "ru" => 4 | "rs" => 4
+  | "rw" => 5 | "rc" => 1 | "wm" => 0 | "fl" => 0 | "rm" => 0 | "gm" => 2 | "wa" => 3 | "ra" => 2 | _ => 0
+
+def parseOpsWith (ar : String → Nat) : Nat → List String → Option (List HOp)
   | 0, _ => some []
   | n + 1, k :: s :: rest => do
     let s ← s.toNat?
-    let a := arity k
+    let a := ar k
     if rest.length < a then none
-    let ops ← parseOps n (rest.drop a)
+    let ops ← parseOpsWith ar n (rest.drop a)
     pure ({ kind := k, s := s, args := rest.take a } :: ops)
   | _, _ => none
+
+def parseOps : Nat → List String → Option (List HOp) := parseOpsWith arity
 
 def joinS (l : List String) : String := "[" ++ ",".intercalate l ++ "]"
 
@@ -83,6 +100,7 @@ def expectOp (g : G) (o : HOp) (ans : String) : G × Option String :=
   | "rm" => (g, some (joinS ((List.range (sel g.models o.s).length).reverse.map toString)))
   | "gs" => (g, some (if (sel g.registry o.s).isEmpty then "E:notfound" else s!"name=c16-{o.s}"))
   | "ls" => (g, some (if (sel g.registry o.s).isEmpty then "listed=false" else "listed=true"))
+  | "ln" => (g, some (if (sel g.registry o.s).isEmpty then "listed=false" else "listed=true"))
   | "ds" => ((sharedStep ev g o.s .deleteStore).1, some "ok")
   | _ => (g, none)
 
@@ -92,9 +110,118 @@ def g0 : G :=
 def splitBar (impl : String) : List (List String) :=
   (impl.splitOn " | ").map (fun p => (p.splitOn " ").filter (· ≠ ""))
 
-def step (line impl : String) : String :=
-  match fields line with
-  | "iso" :: _ :: n :: rest =>
+/-- (op, store, answer) of the interleaved run -/
+abbrev Tagged := HOp × Nat × String
+
+def tagOps (ops : List HOp) (inter : List String) : List Tagged :=
+  (ops.zip inter).map (fun p => (p.1, p.1.s, (p.2.splitOn ":").drop 1 |> ":".intercalate))
+
+/-- 1. the property: per store, interleaved answers = solo answers -/
+def isolationDiff (tagged : List Tagged) (solo : List (List String)) : Option String :=
+  ((List.range 3).filterMap (fun s =>
+    let mine := tagged.filter (fun t => t.2.1 == s)
+    let alone := solo.getD s []
+    if mine.length != alone.length then some s!"store {s}: {mine.length} answers interleaved, {alone.length} alone"
+    else
+      match (mine.zip alone).find? (fun p => p.1.2.2 != p.2) with
+      | some (t, a) => some s!"store {s} answered {t.2.2} to `{t.1.kind} {" ".intercalate t.1.args}` while other stores were active, but {a} when run alone"
+      | none => none)).head?
+
+/-- 2. deleted stores (until created again): GetStore fails and no listing, whatever its filter, lists the store -/
+def afterDelete (notFound : String) : List Tagged → List Nat → Option String
+  | [], _ => none
+  | (o, s, a) :: rest, dead =>
+    if o.kind == "ds" && a == "ok" then afterDelete notFound rest (s :: dead)
+    else if o.kind == "cs" && a == "ok" then afterDelete notFound rest (dead.filter (· != s))
+    else if dead.contains s && o.kind == "gs" && a != notFound then some s!"GetStore returned the deleted store {s}"
+    else if dead.contains s && (o.kind == "ls" || o.kind == "ln") && a != "listed=false" then
+      some s!"ListStores ({if o.kind == "ln" then "by name" else " ".intercalate ("filter" :: o.args)}) lists the deleted store {s}"
+    else afterDelete notFound rest dead
+
+/-! ### storage level: the registry model -/
+
+open OpenFGAVerif.Model.StoreRegistry in
+structure Reg where
+  rows : List Row := []
+  cur : List (Nat × Nat) := []     -- case store ↦ id rank of its current incarnation
+  next : Nat := 0
+
+open OpenFGAVerif.Model.StoreRegistry in
+/-- expected answer of cs / ds / gs / ls on backend `b` ("m" | "s"); for ls also the listing (case stores in id order) -/
+def regOp (b : String) (names : List Nat) (r : Reg) (o : HOp) : Reg × Option String × Option String :=
+  let stepR := if b == "m" then memStep else sqlStep
+  let curOf (i : Nat) : Option Nat := (r.cur.find? (·.1 == i)).map (·.2)
+  match o.kind with
+  | "cs" =>
+    ({ rows := stepR r.rows (.create r.next (names.getD o.s 0)), cur := (o.s, r.next) :: r.cur.filter (·.1 != o.s), next := r.next + 1 }, some "ok", none)
+  | "ds" =>
+    match curOf o.s with
+    | some k => ({ r with rows := stepR r.rows (.delete k) }, some "ok", none)
+    | none => (r, some "ok", none)
+  | "gs" =>
+    let got := match curOf o.s with
+      | some k => if b == "m" then memGetStore r.rows k else sqlGetStore r.rows k
+      | none => none
+    (r, some (match got with | some row => s!"name=c16-name-{row.name}" | none => "nf"), none)
+  | "ls" =>
+    let mode := o.args.headD "all"
+    let ids := if mode == "ids" || mode == "nameids" then [2, 1, 0].map (fun i => (curOf i).getD (1000 + i)) else []
+    let name := if mode == "name" || mode == "nameids" then some (names.getD o.s 0) else none
+    let opts : Opts := { ids := ids, name := name, from_ := none }
+    let l := if b == "m" then memListStores r.rows opts else sqlListStores r.rows opts
+    let idx := l.filterMap (fun row => (r.cur.find? (·.2 == row.id)).map (·.1))
+    (r, some (if idx.contains o.s then "listed=true" else "listed=false"), some ("[" ++ ",".intercalate (idx.map toString) ++ "]"))
+  | _ => (r, none, none)
+
+def stStep (b : String) (namesS : String) (n : String) (rest : List String) (impl : String) : String :=
+  let names := (namesS.splitOn ",").filterMap (·.toNat?)
+  match parseOpsWith stArity (n.toNat?.getD 0) rest with
+  | none => "SKIP unparsable-history"
+  | some ops =>
+    match splitBar impl with
+    | [("I" :: inter), ("A0" :: a0), ("A1" :: a1), ("A2" :: a2), ("L" :: listings)] =>
+      if inter.length != ops.length then modelDiff "one answer per op"
+      else
+        let tagged := tagOps ops inter
+        match isolationDiff tagged [a0, a1, a2] with
+        | some why => specViol ("stores are not isolated (storage level, " ++ (if b == "m" then "memory" else "sqlite") ++ "): " ++ why)
+        | none =>
+          match afterDelete "nf" tagged [] with
+          | some why => specViol (why ++ (if b == "m" then " (memory)" else " (sqlite)"))
+          | none =>
+            -- 3. a model id of another store does not exist here
+            match tagged.find? (fun t => t.1.kind == "gm" && t.1.args.head? != some (toString t.2.1) && t.2.2 != "nf") with
+            | some t => specViol s!"ReadAuthorizationModel on store {t.2.1} with a model id of store {t.1.args.headD "?"} returned {t.2.2}"
+            | none =>
+              -- 4. the registry model
+              let lst : List (Nat × String) := listings.filterMap (fun e =>
+                match e.splitOn "=" with
+                | [i, l] => i.toNat?.map (fun i => (i, l))
+                | _ => none)
+              let (_, _, bad) := tagged.foldl (fun (acc : Reg × Nat × Option String) t =>
+                let (r, idx, bad) := acc
+                match bad with
+                | some x => (r, idx + 1, some x)
+                | none =>
+                  let (r', e, l) := regOp b names r t.1
+                  let bad1 := match e with
+                    | some x => if x == t.2.2 then none else some s!"{t.1.kind} {" ".intercalate t.1.args} on store {t.2.1}: expected {x} got {t.2.2}"
+                    | none => none
+                  let bad2 := match bad1, l with
+                    | none, some x =>
+                      match lst.find? (·.1 == idx) with
+                      | some (_, got) => if got == x then none else some s!"ls {" ".intercalate t.1.args} on store {t.2.1}: expected the listing {x} got {got}"
+                      | none => some s!"ls {" ".intercalate t.1.args} on store {t.2.1}: no listing reported"
+                    | b1, _ => b1
+                  (r', idx + 1, bad2)) (({} : Reg), 0, none)
+              match bad with
+              | some x => modelDiff x
+              | none =>
+                let nt := tagged.any (fun t => (t.1.kind.startsWith "r" && t.2.2.startsWith "[" && t.2.2 != "[]"))
+                ok ((if ops.any (·.kind == "ds") then "storage-isolated-with-delete-" else "storage-isolated-") ++ b) nt
+    | _ => "SKIP unparsable-output"
+
+def isoStep (n : String) (rest : List String) (impl : String) (cls : String) : String :=
     match parseOps (n.toNat?.getD 0) rest with
     | none => "SKIP unparsable-history"
     | some ops =>
@@ -102,30 +229,11 @@ def step (line impl : String) : String :=
       | [("I" :: inter), ("A0" :: a0), ("A1" :: a1), ("A2" :: a2)] =>
         if inter.length != ops.length then modelDiff "one answer per op"
         else
-          -- 1. the property: per store, interleaved answers = solo answers
-          let tagged := (ops.zip inter).map (fun p => (p.1, p.1.s, (p.2.splitOn ":").drop 1 |> ":".intercalate))
-          let solo := [a0, a1, a2]
-          let diff := (List.range 3).filterMap (fun s =>
-            let mine := tagged.filter (fun t => t.2.1 == s)
-            let alone := solo.getD s []
-            if mine.length != alone.length then some s!"store {s}: {mine.length} answers interleaved, {alone.length} alone"
-            else
-              match (mine.zip alone).find? (fun p => p.1.2.2 != p.2) with
-              | some (t, a) => some s!"store {s} answered {t.2.2} to `{t.1.kind} {" ".intercalate t.1.args}` while other stores were active, but {a} when run alone"
-              | none => none)
-          match diff with
-          | why :: _ => specViol ("stores are not isolated: " ++ why)
-          | [] =>
-            -- 2. deleted stores
-            let rec afterDelete (l : List (HOp × Nat × String)) (dead : List Nat) : Option String :=
-              match l with
-              | [] => none
-              | (o, s, a) :: rest =>
-                if o.kind == "ds" && a == "ok" then afterDelete rest (s :: dead)
-                else if dead.contains s && o.kind == "gs" && a != "E:notfound" then some s!"GetStore returned the deleted store {s}"
-                else if dead.contains s && o.kind == "ls" && a != "listed=false" then some s!"ListStores lists the deleted store {s}"
-                else afterDelete rest dead
-            match afterDelete tagged [] with
+          let tagged := tagOps ops inter
+          match isolationDiff tagged [a0, a1, a2] with
+          | some why => specViol ("stores are not isolated: " ++ why)
+          | none =>
+            match afterDelete "E:notfound" tagged [] with
             | some why => specViol why
             | none =>
               -- 3. the shared-state model
@@ -141,8 +249,15 @@ def step (line impl : String) : String :=
               | some b => modelDiff b
               | none =>
                 let nt := tagged.any (fun t => t.2.2 == "T" || (t.1.kind == "lo" && t.2.2 != "[]"))
-                ok (if ops.any (·.kind == "ds") then "isolated-with-delete" else "isolated") nt
+                ok ((if ops.any (·.kind == "ds") then "isolated-with-delete" else "isolated") ++ cls) nt
       | _ => "SKIP unparsable-output"
+
+def step (line impl : String) : String :=
+  match fields line with
+  | "iso" :: _ :: n :: rest => isoStep n rest impl ""
+  | "isq" :: _ :: n :: rest => isoStep n rest impl "-sqlite"
+  | "st" :: b :: names :: n :: rest => stStep b names n rest impl
+  | "sf" :: _ => SfCase.step line impl
   | _ => "SKIP unknown-kind"
 
 end C16
